@@ -25,12 +25,13 @@ class LockstepController:
     """Pairs every random request of the code under test with the next request of the reference
     interpreter; both resolve at the same quantile u of their own law."""
 
-    def __init__(self, refgen, sched, mirror=False):
+    def __init__(self, refgen, sched):
         self.ref = refgen
         self.sched = sched
-        self.mirror = set(mirror or ())
         self.mirrored = 0
-        self.mismatch_sigs = set()
+        self.thresholds = {}
+        self.deferred = None
+        self.observe_assignments = False
         self.events = []
         self.pending = None
         self.ref_result = None
@@ -55,6 +56,7 @@ class LockstepController:
             self.ref_exc = refinterp.Inconclusive(f"arithmetic error in the reference: {type(e).__name__}")
 
     def request(self, law_p, entry):
+        self.flush()
         law_r = self.pending
         if law_r is None:
             self.extra_draws += 1
@@ -62,31 +64,48 @@ class LockstepController:
             self.events.append({"entry": entry, "polar": law_p.describe(), "ref": None, "u": u})
             return u
         same = law_r.same_as(law_p)
-        u = self.sched.choose(law_r)
+        u = self.sched.choose(law_r, self.thresholds.get(refinterp.CTX["target"]))
         if not same:
             self.law_mismatch += 1
             if self.first_mismatch is None:
                 self.first_mismatch = {"draw": len(self.events), "polar": law_p.describe(), "ref": law_r.describe()}
-        self.events.append({"entry": entry, "polar": law_p.describe(), "ref": law_r.describe(), "same": same, "u": u,
-                            "at": [refinterp.CTX["sample"], refinterp.CTX["iteration"], refinterp.CTX["target"]]})
-        sig = None
-        if law_p.kind == "cont" and law_r.kind == "cont":
-            # u -> Q(1-u) pushes the uniform law forward to the same law as u -> Q(u): antithetic use of a draw is legitimate
-            sig = f"{law_p.name}->{law_r.name}" + ("=" if same else "!")
-            self.mismatch_sigs.add(sig)
-        if sig is not None:
-            self.events[-1]["sig"] = sig
-        if sig is not None and self.mirror and sig in self.mirror:
-            # further attempt of a case: the implementation may post-process this kind of draw with a decreasing map
-            # (inverse transform with -log(U), say); then its u-quantile is the reference's (1-u)-quantile
-            self.mirrored += 1
-            self._advance(-u)
+        self.events.append({"entry": entry, "polar": law_p.describe(), "ref": law_r.describe(), "same": same, "u": u})
+        if law_r.kind == "cont" and self.observe_assignments:
+            # The reference is advanced when the assignment that issued this request completes (see assignment_done):
+            # the value it stores tells whether the implementation used the draw directly (u-quantile) or antithetically
+            # (upper u-quantile, e.g. inverse transform with -log(U)); both push the uniform law forward to the same law.
+            self.deferred = (law_r, u)
         else:
             self._advance(u)
         return u
 
+    def assignment_done(self, value):
+        if self.deferred is None:
+            return
+        law_r, u = self.deferred
+        self.deferred = None
+        lo, hi = law_r.quantile(u), law_r.quantile_upper(u)
+        try:
+            v = float(value)
+        except Exception:  # noqa
+            v = float("nan")
+        if not _close(v, lo, 1.0) and _close(v, hi, 1.0):
+            self.mirrored += 1
+            self.events[-1]["antithetic"] = True
+            self._advance(-u)
+        else:
+            self._advance(u)
+
+    def flush(self):
+        """a request that was not followed by the completion of an assignment resolves directly"""
+        if self.deferred is not None:
+            _, u = self.deferred
+            self.deferred = None
+            self._advance(u)
+
     def drain(self):
         """reference still expects draws that the code under test never made"""
+        self.flush()
         n = 0
         while self.pending is not None:
             u = self.sched.choose(self.pending)
@@ -121,48 +140,79 @@ def _close(p, r, scale):
     return abs(p - r) <= 1e-9 * max(1.0, abs(r), scale)
 
 
+def comparison_thresholds(prog):
+    """{variable: constants it is compared with} for atoms of the shapes v op c, v + c' op c, v - c' op c"""
+    from fractions import Fraction
+    out = {}
+
+    def atom(c):
+        if c[0] == "cmp":
+            for lhs, rhs, in ((c[1], c[3]), (c[3], c[1])):
+                if rhs[0] != "num":
+                    continue
+                k = Fraction(rhs[1])
+                if lhs[0] == "var":
+                    out.setdefault(lhs[1], set()).add(float(k))
+                elif lhs[0] in ("add", "sub") and lhs[1][0] == "var" and lhs[2][0] == "num":
+                    d = Fraction(lhs[2][1])
+                    out.setdefault(lhs[1][1], set()).add(float(k - d if lhs[0] == "add" else k + d))
+        elif c[0] in ("and", "or"):
+            atom(c[1])
+            atom(c[2])
+        elif c[0] == "not":
+            atom(c[1])
+
+    def walk(stmts):
+        for s in stmts:
+            if s[0] == "if":
+                for c, br in s[1]:
+                    atom(c)
+                    walk(br)
+                if s[2] is not None:
+                    walk(s[2])
+
+    atom(prog["guard"])
+    walk(prog["body"])
+    walk(prog["init"])
+    return out
+
+
 def run_case(case):
-    """Execute one lock-step case; a violating case in which the implementation requested continuous laws other than the
-    reference's is attempted once more with mirrored coupling for those draws before it is reported."""
-    first = out = _run_case(case, mirror=case.get("mirror"))
-    if case.get("mirror"):
-        return out
-    mirror = set()
-    for _ in range(10):
-        if out.get("outcome") != "violation":
-            break
-        # which continuous draw feeds the earliest mismatching variable?  Try the antithetic orientation for its kind of draw.
-        bad = {(p.get("sample"), p.get("iteration"), p.get("var")) for p in out.get("problems", []) if p.get("kind") == "state"}
-        pick = None
-        for e in out.get("cont_events", []):
-            sa, it, target = e["at"]
-            if e["sig"] not in mirror and (sa, it + 1, target) in bad:
-                pick = e["sig"]
-                break
-        if pick is None:
-            break
-        mirror.add(pick)
-        out = _run_case(case, mirror=mirror)
-    if out.get("outcome") == "violation":
-        # the guided search did not settle it (the mismatching variable is computed from an overwritten draw, say):
-        # enumerate orientations, kinds of draw whose seam law differs from the reference law first
-        from itertools import combinations
-        sigs = sorted({e["sig"] for e in first.get("cont_events", [])}, key=lambda g: (g.endswith("="), g))
-        subsets = [set(c) for k in range(1, len(sigs) + 1) for c in combinations(sigs, k)]
-        subsets.sort(key=lambda c: (sum(1 for g in c if g.endswith("=")), len(c)))
-        for m in subsets[:48]:
-            out = _run_case(case, mirror=m)
-            if out.get("outcome") != "violation":
-                mirror = m
-                break
-    if out.get("outcome") != "violation" and out.get("mirrored", 0) > 0:
-        out["notes"].append(f"values agree under antithetic quantile coupling for {sorted(mirror)} (decreasing post-processing of a draw)")
-        out["mirror"] = sorted(mirror)
-        return out
-    return first
+    """Execute one lock-step case."""
+    return _run_case(case)
 
 
-def _run_case(case, mirror=False):
+_hooked = [False]
+
+
+def _install_assignment_observer():
+    """Best effort: wrap Assignment.evaluate so that the controller sees the value an assignment stores right after it
+    issued a random request.  If the class or method is not there (refactored code) the observer is simply absent and
+    every request resolves directly."""
+    if _hooked[0]:
+        return True
+    try:
+        from program.assignment.assignment import Assignment
+        orig = Assignment.evaluate
+    except Exception:  # noqa
+        return False
+
+    def evaluate(self, state):
+        res = orig(self, state)
+        c = rngseam._controller
+        if c is not None and hasattr(c, "assignment_done"):
+            try:
+                c.assignment_done(res[self.variable])
+            except Exception:  # noqa
+                c.flush()
+        return res
+
+    Assignment.evaluate = evaluate
+    _hooked[0] = True
+    return True
+
+
+def _run_case(case):
     """Returns a dict with outcome in {ok, violation, inconclusive, polar_refused, both_refused, polar_error}."""
     Parser, Simulator = _polar_imports()
     import utils.identifiers as ident
@@ -180,7 +230,9 @@ def _run_case(case, mirror=False):
     rng = _random.Random(case.get("seed", 0))
     sched = Scheduler(rng, case.get("policy", "mixed"), case.get("script"))
     trace = []
-    ctl = LockstepController(refinterp.run(prog, iters, samples, trace), sched, mirror=mirror)
+    ctl = LockstepController(refinterp.run(prog, iters, samples, trace), sched)
+    ctl.observe_assignments = _install_assignment_observer()
+    ctl.thresholds = comparison_thresholds(prog)
     rngseam.set_controller(ctl)
     try:
         try:
@@ -221,9 +273,10 @@ def _run_case(case, mirror=False):
         return out
     out["draws"] = len(ctl.events)
     out["mirrored"] = ctl.mirrored
-    out["cont_events"] = [{"at": e["at"], "sig": e["sig"]} for e in ctl.events if e.get("sig")][:400]
+
     out["script"] = list(sched.used)
     out["n_extreme"] = sched.n_extreme
+    out["n_boundary"] = sched.n_boundary
     out["trace_sig"] = _digest(trace)
     out["probes"] = _probes(trace, ctl.events, prog)
     if ctl.ref_exc is not None:
